@@ -5,4 +5,4 @@
 cd "$(dirname "$0")/.."
 J="${REGRESS_JOBS:-3}"
 ls mutants/*.patch | xargs -P "$J" -I{} bash -c 'm={}; id=$(basename $m | cut -d- -f1); ./scripts/mutant.sh $m $id quick --no-baseline | grep "^RESULT"'
-ls -d benign/[A-Z]-*/ | xargs -P "$J" -I{} bash -c './scripts/benign_eval.sh {}patch.diff 2>&1 | grep "^BENIGN\|^----"'
+ls -d benign/[A-Z]-*/ | xargs -P "$J" -I{} bash -c './scripts/benign_eval.sh {}patch.diff 2>&1 | grep -A14 "^BENIGN\|^----"'
